@@ -31,7 +31,7 @@ CLAIMED = {
          "deterministic simulation with fault injection: stored-medium faults on seeded documents x seeded caller programs x simulated Source delivery, isolated worker processes with write-ahead cases and resource watchdogs",
          "DESIGN.md section 3 C06"),
  "C19": ("fault_enumeration",
-         "Seeded simulation of the io.Reader/io.Writer seams: for every generated document, every two-chunk split point, byte-at-a-time and seeded chunk plans are compared with whole delivery; a read failure is injected at every byte offset and a write failure at every Write call (sticky/transient, with/without partial data). Exhaustive over fault positions per document; the document space is sampled from VERIF_SEED.",
+         "Seeded simulation of the io.Reader/io.Writer seams: for every generated document, every two-chunk split point, byte-at-a-time and seeded chunk plans are compared with whole delivery; a read failure is injected at every byte offset and a write failure at every Write call (sticky/transient; nothing, a prefix or all of the data accepted; several error identities). Exhaustive over fault positions per document; the document space is sampled from VERIF_SEED.",
          "Reference outcome is ion-go's own traversal over whole delivery; Go runtime and bufio trusted; strict reading of R2 (every fired read failure, one-time ones included, must be reported).",
          "deterministic simulation with fault injection: simulated Source/Sink, per-byte read-fault and per-call write-fault enumeration, explicit replay cases",
          "DESIGN.md section 3 C19"),
